@@ -480,9 +480,9 @@ impl Scenario for C06 {
         // drop chunks of reports
         let n = p.reports.len();
         let mut chunk = n / 2;
-        while chunk >= 1 {
+        while chunk >= 1 && out.len() * (n + 1) < 3_000_000 {
             let mut i = 0;
-            while i < n {
+            while i < n && out.len() * (n + 1) < 3_000_000 {
                 let hi = (i + chunk).min(n);
                 let mut q = p.clone();
                 q.reports.drain(i..hi);
